@@ -938,6 +938,11 @@ def run(chk):
     check_main_order(chk, main_tu, prov)
     check_mode_option(chk, main_tu)
     chk.floor('R20.7', 3)
+    # R20.8: option string and option switch agree on which options take an argument - otherwise the operands shift and the output is
+    # written over the file named as input (rule shared with C09 R09.12)
+    from . import c09 as _c09
+    _c09.check_option_string(chk, 'R20.8')
+    chk.floor('R20.8', 6)
     check_filter(chk, main_tu, c_tu, filename_length_macro(c_tu))
     check_writer_names(chk, c_tu, directory_changer(chk, prov))
     check_directory_change(chk, prov)
